@@ -83,7 +83,7 @@ class LitModel:
 def build(pid, P, R, tier, log_dir):
     import mirx_props as mp
     obs = []
-    if pid != "C07":
+    if pid not in ("C07", "C04"):
         return obs
     PAREN_DEPTH = 2
 
@@ -253,7 +253,270 @@ def build(pid, P, R, tier, log_dir):
         r["model"] = {"op": opn, "variable": vtn, "value": wtn}
         return finish_tc(r, "compound", opn, vtn, wtn, None, log_dir)
     obs.append(mp.XOb("X-compound_assign", "", "", run_compound))
+
+    # ---- the compatibility relation on payload-free types (the meaning X-compound_assign relies on) --------------------------
+    SIMPLE = ["Int", "Float", "Bool", "Str", "Bytes", "FrozenStr", "FrozenBytes", "Unit", "SelfType", "Unknown"]
+
+    def run_compat():
+        t0 = time.time()
+        f = find_fn(P, "types_compatible")
+        ex = setup()
+        ex.summarize = [p for p in SUMMARIZE if "types_compatible" not in p]
+        ex.recursion_bound = 1
+        selfv = ex.sym_value("TypeChecker", "self")
+        a = ex.sym_value("symbols::ResolvedType", "actual")
+        b = ex.sym_value("symbols::ResolvedType", "expected")
+        rvars = mp.variants(R, "ResolvedType")
+        missing = [n for n in SIMPLE if n not in rvars]
+        if missing:
+            raise Inconclusive(f"ResolvedType no longer has the variants {missing}")
+        st0 = symex.State()
+        allowed = {rvars.index(n) for n in SIMPLE}
+        for sym in (a, b):
+            t = sym.tag().term
+            st0.facts[t] = ("ne", set(range(len(rvars))) - allowed)
+            st0.pc.append("(or " + " ".join(f"(= {t} {k})" for k in sorted(allowed)) + ")")
+        outs = ex.run(f, [selfv, a, b], state=st0)
+        at, bt = a.tag().term, b.tag().term
+        ix = lambda n: rvars.index(n)  # noqa: E731
+        doc = (f"(or (= {at} {bt}) (= {at} {ix('Unknown')}) (= {bt} {ix('Unknown')}) "
+               f"(and (= {at} {ix('FrozenStr')}) (= {bt} {ix('Str')})) (and (= {at} {ix('FrozenBytes')}) (= {bt} {ix('Bytes')})))")
+        bad = []
+        for o in outs:
+            if o.kind != "return":
+                bad.append(conj(o.pc))
+                continue
+            v = ex.deref(o.value, o.state)
+            if isinstance(v, symex.Scalar) and v.sort == "bool":
+                bad.append(conj(o.pc + [f"(not (= {v.term} {doc}))"]))
+            else:
+                bad.append(conj(o.pc))
+        r = {"id": "X-types_compatible", "engine": "E2-X mirsmt",
+             "statement": "the checker's compatibility relation on payload-free types: `actual` is accepted where `expected` is declared iff "
+                          "they are the same type, either is Unknown (error recovery), or actual is the frozen form of expected "
+                          "(FrozenStr -> str, FrozenBytes -> bytes); in particular float is never accepted for int nor int for float",
+             "bound": f"all {len(SIMPLE)}^2 pairs of payload-free ResolvedType variants (tags symbolic)",
+             "encoding": "enum tags as bounded Int", "functions_encoded": [n + " (MIR)" for n in ex.encoded], "paths": len(outs)}
+        base = os.path.join(log_dir, "X-types_compatible")
+        vac, _ = mp.query(ex, [disj([conj(o.pc) for o in outs if o.kind == "return"])], [], base + ".vac")
+        if vac.status != "sat":
+            r.update(status="inconclusive", reason=f"vacuity twin {vac.status}", wall_s=round(time.time() - t0, 2))
+            return r
+        r["vacuity_ok"] = True
+        res, res2 = mp.query(ex, [disj(bad)], mp.tag_names(ex), base)
+        r["solver"] = f"z3: {res.status} in {res.wall:.2f} s" + (f"; cvc5: {res2.status} in {res2.wall:.2f} s" if res2 else "")
+        r["wall_s"] = round(time.time() - t0, 2)
+        if res.status == "unsat" and (res2 is None or res2.status != "sat"):
+            r["status"] = "held"
+            return r
+        if res.status == "inconclusive":
+            r.update(status="inconclusive", reason="solver: " + res.raw[:200])
+            return r
+        model = (res if res.status == "sat" else res2).model
+        an = rvars[solver.value_int(model[at])]
+        bn = rvars[solver.value_int(model[bt])]
+        r["model"] = {"actual": an, "expected": bn}
+        SRC = {"Int": ("int", "1"), "Float": ("float", "1.5"), "Bool": ("bool", "true"), "Str": ("str", '"s"'), "Unit": ("None", "None")}
+        if an not in SRC or bn not in SRC:
+            r.update(status="inconclusive", reason=f"model {r['model']} has no surface program (only int/float/bool/str/None can be written)")
+            return r
+        src = f"def f() -> {SRC[bn][0]}:\n    let v: {SRC[an][0]} = {SRC[an][1]}\n    return v\n"
+        exp = "ACCEPTED" if an == bn else "REJECTED"
+        res_n, path = native_typecheck(src, log_dir, "compat")
+        text = f"returning a {SRC[an][0]} from a function declared -> {SRC[bn][0]}: expected {exp}, checker says {res_n}"
+        r["native"] = text
+        if any(not line.startswith(exp) for line in res_n.values()):
+            os.makedirs(os.path.join(common.REPLAYS_DIR, "MIRX"), exist_ok=True)
+            rp = os.path.join(common.REPLAYS_DIR, "MIRX", "X-types_compatible.replay")
+            with open(rp, "w") as fh:
+                fh.write(f"mirx compat {an} {bn}\n# {r['statement']}\n# {text}\n")
+            r.update(status="violated", replay=rp, counterexample={"model": r["model"], "native": text})
+        else:
+            r.update(status="inconclusive", reason=f"model does not reproduce through the public API: {text}")
+        return r
+    obs.append(mp.XOb("X-types_compatible", "", "", run_compat))
+    obs.append(mp.XOb("X-lower_compound", "", "", lambda: run_lower_compound(P, R, mp, setup, log_dir)))
+    if pid == "C04":
+        # C04 covers "/, //, % and their compound-assignment forms": only the desugaring obligation belongs to it
+        obs = [o for o in obs if o.id == "X-lower_compound"]
     return obs
+
+
+def find_adt(v, ex, st, variant, depth=0):
+    """First Adt with the given variant name inside a returned value (looks through Ok(..), struct fields, boxes)."""
+    v = ex.deref(v, st)
+    if isinstance(v, Adt):
+        if v.variant == variant:
+            return v
+        if depth < 6:
+            for f in v.fields:
+                r = find_adt(f[1] if isinstance(f, tuple) else f, ex, st, variant, depth + 1)
+                if r is not None:
+                    return r
+    return None
+
+
+def adt_field(adt, name):
+    for f in adt.fields:
+        if isinstance(f, tuple) and f[0] == name:
+            return f[1]
+    return None
+
+
+def run_lower_compound(P, R, mp, setup, log_dir):
+    """Lowering of `x <op>= y`: desugars to `x = x <op> y` with the SAME operator, x on the left and y on the right, typed by the
+    documented table."""
+    t0 = time.time()
+    f = find_fn(P, "lower_stmt") if any(n.endswith("::lower_stmt") for n in P.fns) else find_fn(P, "lower_statement")
+    loc_ca = f.debug.get("ca")
+    if loc_ca is None:
+        raise Inconclusive(f"{f.name}: no local named `ca` (compound assignment arm) any more")
+    entry = None
+    for bn, b in f.blocks.items():
+        if any(re.match(r"^" + re.escape(loc_ca) + r" = ", st_) for st_ in b.stmts):
+            entry = bn
+    if entry is None:
+        raise Inconclusive(f"{f.name}: the block that binds `ca` was not found")
+    ex = setup()
+    ex.summarize = SUMMARIZE + [r"::lookup_var$", r"::lower_expr_spanned$", r"::lower_expr$"]
+    selfv = ex.sym_value("AstLowering", "self")
+    ctype = re.sub(r"^&\s*", "", f.locals.get(loc_ca, ""))
+    stmt = ex.sym_value(f.params[1][1], "stmt")
+    # the arm's binding `ca` is the payload of Statement::CompoundAssignment of the statement being lowered
+    snode = stmt
+    if snode.tdef is not None and snode.tdef.kind == "struct":
+        snode = stmt.child(None, 0)
+    ca = snode.child("CompoundAssignment", 0)
+    params = [selfv, stmt] + [ex.sym_value(t, f"p{k}") for k, (_, t) in enumerate(f.params[2:])]
+    st_var = mp.idx(R, "incan_syntax::ast::Statement", "CompoundAssignment")
+    outs = ex.run_slice(f, entry, {}, params)
+    td = R.resolve(ctype)
+    names = [x[0] for x in td.variants[0][1]]
+    cop = ca.child(None, names.index("op"))
+    cvars = mp.variants(R, "incan_syntax::ast::CompoundOp")
+    irt = mp.variants(R, "IrType")
+    I, F = irt.index("Int"), irt.index("Float")
+    bad = []
+    shapes = []
+    n_ok = 0
+    for o in outs:
+        if o.kind != "return":
+            bad.append(conj(o.pc))
+            continue
+        v = ex.deref(o.value, o.state)
+        if isinstance(v, Adt) and v.variant == "Err":
+            continue                 # the value expression failed to lower: error propagated
+        assign = find_adt(v, ex, o.state, "Assign")
+        binop = find_adt(v, ex, o.state, "BinOp")
+        if assign is None or binop is None:
+            bad.append(conj(o.pc))
+            continue
+        n_ok += 1
+        opv = ex.deref(adt_field(binop, "op"), o.state)
+        left = ex.deref(adt_field(binop, "left"), o.state)
+        right = ex.deref(adt_field(binop, "right"), o.state)
+        k = op_fact(o, cop)
+        cname = cvars[k] if k is not None else None
+        want_op = cname     # CompoundOp and BinOp use the same names for these six operators
+        ok_op = isinstance(opv, Adt) and opv.variant == want_op
+        # left operand: a variable reference carrying the assigned name; right operand: the lowered value expression
+        lkind = ex.deref(adt_field(left, "kind"), o.state) if isinstance(left, Adt) else None
+        ok_left = isinstance(lkind, Adt) and lkind.variant == "Var" and (ca.name + ".0") in mirx.show(lkind, ex, o.state)
+        ok_right = isinstance(right, symex.Sym) and right.name.startswith("ev")
+        tgt = mirx.show(ex.deref(adt_field(assign, "target"), o.state), ex, o.state)
+        ok_target = "Var" in tgt and (ca.name + ".0") in tgt
+        shapes.append(mirx.show(binop, ex, o.state)[:160])
+        if not (ok_op and ok_left and ok_right and ok_target):
+            bad.append(conj(o.pc))
+            continue
+        # result type of the desugared expression by the documented table (lhs type = the variable's, rhs type = the value's)
+        value = ex.deref(adt_field(assign, "value"), o.state)
+        rty = ex.deref(adt_field(value, "ty"), o.state) if isinstance(value, Adt) else None
+        lty = ex.deref(adt_field(left, "ty"), o.state)
+        rhs_ty = right.child(None, [x[0] for x in R.resolve("TypedExpr").variants[0][1]].index("ty"))
+        if isinstance(lty, symex.Sym):
+            lt, rt = lty.tag().term, rhs_ty.tag().term
+            both = f"(and (or (= {lt} {I}) (= {lt} {F})) (or (= {rt} {I}) (= {rt} {F})))"
+            docf = f"(or (= {cop.tag().term} {cvars.index('Div')}) (= {lt} {F}) (= {rt} {F}))"
+            if isinstance(rty, Adt) and rty.variant == "Float":
+                bad.append(conj(o.pc + [both, neg(docf)]))
+            elif isinstance(rty, Adt) and rty.variant == "Int":
+                bad.append(conj(o.pc + [both, docf]))
+            else:
+                bad.append(conj(o.pc + [both]))
+    r = {"id": "X-lower_compound", "engine": "E2-X mirsmt (slice)",
+         "statement": "lowering, `x <op>= y`: the statement becomes `x = x <op> y` with the same operator, the variable on the left and the "
+                      "value on the right (so `x //= y` is x // y, never y // x), assigned back to x, and the expression is typed by the "
+                      "documented table for int/float operands",
+         "bound": "CompoundAssignment arm of lower_stmt from the variable lookup on: all 6 compound operators x all IrType variants of the "
+                  "variable and of the value; lookup_var / lower_expr_spanned summarised by arbitrary results",
+         "encoding": "enum tags as bounded Int", "functions_encoded": [n + " (MIR)" for n in ex.encoded], "paths": len(outs),
+         "shapes": shapes[:3]}
+    base = os.path.join(log_dir, "X-lower_compound")
+    if n_ok == 0:
+        r.update(status="inconclusive", reason="no path produced an Assign statement (vacuous)", wall_s=round(time.time() - t0, 2))
+        return r
+    r["vacuity_ok"] = True
+    bad = [b for b in bad if b != "false"]
+    if not bad:
+        r.update(status="held", solver="no path can differ (syntactic)", wall_s=round(time.time() - t0, 2))
+        return r
+    res, res2 = mp.query(ex, [disj(bad)], mp.tag_names(ex), base)
+    r["solver"] = f"z3: {res.status} in {res.wall:.2f} s" + (f"; cvc5: {res2.status} in {res2.wall:.2f} s" if res2 else "")
+    r["wall_s"] = round(time.time() - t0, 2)
+    if res.status == "unsat" and (res2 is None or res2.status != "sat"):
+        r["status"] = "held"
+        return r
+    if res.status == "inconclusive":
+        r.update(status="inconclusive", reason="solver: " + res.raw[:200])
+        return r
+    model = (res if res.status == "sat" else res2).model
+    k = solver.value_int(model[cop.tag().term]) if cop.tag().term in model else 0
+    opn = cvars[k]
+    r["model"] = {"op": opn}
+    # native: run a program whose result depends on operand order and operator
+    return finish_lower_compound(r, opn, log_dir)
+
+
+def op_fact(o, sym):
+    f = o.state.facts.get(sym.tag().term)
+    return f[1] if f and f[0] == "eq" else None
+
+
+def finish_lower_compound(r, opn, log_dir):
+    import kani
+    sym = {"Add": "+=", "Sub": "-=", "Mul": "*=", "Div": "/=", "FloorDiv": "//=", "Mod": "%="}[opn]
+    rust = {"Add": r"k \+ w", "Sub": r"k - w", "Mul": r"k \* w", "Div": r"py_div\(\s*k\b.*,\s*\(?w", "FloorDiv": r"py_floor_div\w*\(\s*k\b.*,\s*w",
+            "Mod": r"py_mod\w*\(\s*k\b.*,\s*w"}[opn]
+    vt = "float" if opn == "Div" else "int"
+    src = f"def f(v: {vt}, w: int) -> None:\n    mut k: {vt} = v\n    k {sym} w\n"
+    path = os.path.join(log_dir, "lower_compound_replay.incn")
+    os.makedirs(log_dir, exist_ok=True)
+    with open(path, "w") as fh:
+        fh.write(src)
+    texts, broken = [], False
+    for prof in ("dev", "release"):
+        binp = kani.build_replay(prof, True, log_dir)
+        rc, out, _, to = common.run([binp, "emitrust", path], timeout=60)
+        m = re.search(r"^\s*k = (.*?);", out, re.S | re.M)
+        if not m:
+            texts.append(f"[{prof}] no assignment to k in the generated code: {out.strip()[-160:]}")
+            broken = broken or "RUST-BEGIN" in out or "CODEGEN-ERROR" in out
+            continue
+        ok = re.search(rust, m.group(1)) is not None
+        broken = broken or not ok
+        texts.append(f"[{prof}] `k {sym} w` generated `k = {m.group(1).strip()}`")
+    text = "; ".join(texts)
+    r["native"] = text
+    if broken:
+        os.makedirs(os.path.join(common.REPLAYS_DIR, "MIRX"), exist_ok=True)
+        rp = os.path.join(common.REPLAYS_DIR, "MIRX", "X-lower_compound.replay")
+        with open(rp, "w") as fh:
+            fh.write(f"mirx lowercompound {opn}\n# {r['statement']}\n# {text}\n")
+        r.update(status="violated", replay=rp, counterexample={"model": r["model"], "native": text})
+    else:
+        r.update(status="inconclusive", reason=f"model {r['model']} does not reproduce through the real pipeline: {text}")
+    return r
 
 
 def expr_shape(R, mp, spanned, model, depth):
@@ -373,6 +636,14 @@ def finish_tc(r, kind, opn, a, b, shape, log_dir):
 def replay_tc(pid, line):
     log_dir = os.path.join(common.WORK_DIR, pid, "replay")
     os.makedirs(log_dir, exist_ok=True)
+    if line[1] == "compat":
+        SRC = {"Int": ("int", "1"), "Float": ("float", "1.5"), "Bool": ("bool", "true"), "Str": ("str", '"s"'), "Unit": ("None", "None")}
+        an, bn = line[2], line[3]
+        src = f"def f() -> {SRC[bn][0]}:\n    let v: {SRC[an][0]} = {SRC[an][1]}\n    return v\n"
+        exp = "ACCEPTED" if an == bn else "REJECTED"
+        res_n, _ = native_typecheck(src, log_dir, "compat")
+        say(f"expected {exp}; checker says {res_n}")
+        return any(not l.startswith(exp) for l in res_n.values())
     kind, opn, a, b, shape = line[2], line[3], line[4], line[5], (None if line[6] == "-" else line[6])
     bad, text, _ = check_programs(kind, opn, a, b, shape, log_dir)
     say(text)
